@@ -105,6 +105,14 @@ class SimFS:
             p = posixpath.join(self.cwd, p)
         return posixpath.normpath(p)
 
+    NAME_MAX = 255
+
+    def namecheck(self, path):
+        """ENAMETOOLONG for a path with a component longer than NAME_MAX bytes (what every system call does)."""
+        for comp in str(path).split('/'):
+            if len(comp.encode('utf-8', 'surrogateescape')) > self.NAME_MAX:
+                raise OSError(_errno.ENAMETOOLONG, 'File name too long', path)
+
     def follow(self, path):
         """Resolve symbolic links in the final component (ELOOP after 8 hops)."""
         path = self.abspath(path)
@@ -136,6 +144,7 @@ class SimFS:
 
     def create(self, path, mode):
         path = self.abspath(path)
+        self.namecheck(path)
         if self.full:
             raise OSError(_errno.ENOSPC, 'No space left on device', path)
         ino = Inode(self.next_ino, b'', mode & ~self.umask & 0o7777, synced=b'')
@@ -148,6 +157,8 @@ class SimFS:
 
     def link(self, src, dst):
         src, dst = self.abspath(src), self.abspath(dst)
+        self.namecheck(src)
+        self.namecheck(dst)
         if src not in self.dir:
             raise FileNotFoundError(_errno.ENOENT, 'No such file or directory', src)
         if dst in self.dir or dst in self.symlinks:
@@ -159,6 +170,7 @@ class SimFS:
 
     def unlink(self, path):
         path = self.abspath(path)
+        self.namecheck(path)
         if path in self.symlinks:            # removes the link itself, never its target
             del self.symlinks[path]
             self.journal.append(('unlink', path))
@@ -171,6 +183,8 @@ class SimFS:
 
     def rename(self, src, dst):
         src, dst = self.abspath(src), self.abspath(dst)
+        self.namecheck(src)
+        self.namecheck(dst)
         if src not in self.dir:
             raise FileNotFoundError(_errno.ENOENT, 'No such file or directory', src)
         i = self.dir[src]
@@ -185,6 +199,7 @@ class SimFS:
 
     def chmod(self, path, mode):
         path = self.follow(path)
+        self.namecheck(path)
         if path not in self.dir:
             raise FileNotFoundError(_errno.ENOENT, 'No such file or directory', path)
         i = self.dir[path]
@@ -194,6 +209,7 @@ class SimFS:
     # -- data operations ----------------------------------------------------------------
     def open(self, path, flags, mode=0o777):
         path = self.abspath(path)
+        self.namecheck(path)
         if path in self.dirs:
             if flags & (_os.O_WRONLY | _os.O_RDWR):
                 raise IsADirectoryError(_errno.EISDIR, 'Is a directory', path)
@@ -641,6 +657,10 @@ class SimPath:
         if self._sim.crashed is not None and not self._sim.dead:
             raise CrashNow()
         self._sim.event('lexists', self._sim.fs.abspath(p))
+        try:
+            self._sim.fs.namecheck(self._sim.fs.abspath(p))
+        except OSError:
+            return False
         return self._sim.fs.lexists(p)
 
     def exists(self, p):
@@ -648,6 +668,10 @@ class SimPath:
             raise CrashNow()
         self._sim.event('exists', self._sim.fs.abspath(p))
         fs = self._sim.fs
+        try:
+            fs.namecheck(fs.abspath(p))
+        except OSError:
+            return False
         return fs.lookup(p) is not None or fs.follow(p) in fs.dirs
 
     def isfile(self, p):
@@ -692,6 +716,7 @@ class SimOS:
         f = sim.event('stat', sim.fs.abspath(path))
         if f is not None:
             _raise(f, path)
+        sim.fs.namecheck(sim.fs.abspath(path))
         i = sim.fs.lookup(path)
         if i is None and sim.fs.follow(path) in sim.fs.dirs:
             i = sim.fs.DIR_INO
